@@ -18,6 +18,8 @@ import (
 func init() {
 	ops["ExtractMsg"] = opExtractMsg
 	ops["Proof"] = opProof
+	ops["ExtractTwice"] = opExtractMsg
+	families["X02"] = runX02
 	families["C11"] = runC11
 	families["C12"] = runC12
 }
@@ -110,6 +112,14 @@ func opExtractMsg(_ *HState, a Event) Event {
 		}
 		e["items"] = it
 		e["bad"] = pb.BadTree()
+		if gName(a, "op") == "ExtractTwice" { // growth X02: the same object asked again
+			r2 := pb.ExtractMatches()
+			it2 := []int{}
+			for _, x := range pb.GetItems() {
+				it2 = append(it2, int(x))
+			}
+			e["second"] = map[string]interface{}{"ok": r2 != nil, "bad": pb.BadTree(), "matches": hashesInts(pb.GetMatches()), "items": it2}
+		}
 	})
 	if hung {
 		p, pmsg = true, "ExtractMatches did not return within 20s (hang)"
@@ -433,5 +443,31 @@ func runC12(c *Ctx) {
 		extract(n, [][]byte{atoms[1]}, []byte{1})
 		extract(n, [][]byte{atoms[1], atoms[2]}, []byte{0xff, 0xff, 0xff})
 		extract(n, nil, nil)
+	}
+}
+
+// growth X02: PartialBlock objects are single-use
+func runX02(c *Ctx) {
+	r := c.Rng
+	for k := 0; k < c.Pick(300, 3000); k++ {
+		n := 1 + r.Intn(40)
+		blk := mkBlock(n, r.Uint32())
+		var set []*chainhash.Hash
+		for i := 0; i < n; i++ {
+			if r.Intn(3) == 0 {
+				h := blk.Transactions[i].TxHash()
+				set = append(set, &h)
+			}
+		}
+		m, _ := merkleblock.NewMerkleBlockWithTxnSet(bchutil.NewBlock(blk), set)
+		hl := [][]int{}
+		for _, h := range m.Hashes {
+			hl = append(hl, ints(h[:]))
+		}
+		flags := append([]byte{}, m.Flags...)
+		if k%3 == 0 && len(flags) > 0 { // non-canonical padding bits (accepted by the first extraction)
+			flags[len(flags)-1] |= 0x80
+		}
+		c.Call(Event{"op": "ExtractTwice", "ntx": w32(m.Transactions), "hashes": hl, "flags": ints(flags)})
 	}
 }
